@@ -383,3 +383,160 @@ def sponge_tables(check, ctx, rule="K-pw"):
     total += len(cj)
     check.count("sponge_stack_rows", total)
     return total
+
+
+# ------------------------------------------------------------------------------------------------ MD family and BLAKE2
+# module -> (native prefix, hashlib constructor of the digest for (data, init arguments))
+MD_FAMILY = {
+    "MD5": ("MD5", lambda d, a: hashlib.md5(d).digest()),
+    "SHA1": ("SHA1", lambda d, a: hashlib.sha1(d).digest()),
+    "SHA224": ("SHA224", lambda d, a: hashlib.sha224(d).digest()),
+    "SHA256": ("SHA256", lambda d, a: hashlib.sha256(d).digest()),
+    "SHA384": ("SHA384", lambda d, a: hashlib.sha384(d).digest()),
+    "SHA512": ("SHA512", lambda d, a: {64: hashlib.sha512, 28: lambda x: hashlib.new("sha512_224", x), 32: lambda x: hashlib.new("sha512_256", x)}[a[0]](d).digest()),
+    "RIPEMD160": ("ripemd160", lambda d, a: hashlib.new("ripemd160", d).digest()),
+    "BLAKE2b": ("blake2b", lambda d, a: hashlib.blake2b(d, key=a[0], digest_size=a[1]).digest().ljust(64, b"\x00")),
+    "BLAKE2s": ("blake2s", lambda d, a: hashlib.blake2s(d, key=a[0], digest_size=a[1]).digest().ljust(32, b"\x00")),
+}
+
+
+class MdWorld(World):
+    """The native Merkle-Damgard / BLAKE2 objects as hashlib computations over the bytes absorbed so far."""
+
+    def __init__(self, repo, alg):
+        World.__init__(self, repo)
+        pre, self.fn = MD_FAMILY[alg]
+        self.alg = alg
+        self.it.ffi_models = {pre + "_init": self.g_init, pre + "_update": self.g_update, pre + "_digest": self.g_digest,
+                              pre + "_copy": self.g_copy, pre + "_destroy": lambda i, a, kw, st, node: 0}
+
+    def g_init(self, i, a, kw, st, node):
+        addr = a[0]
+        extra = list(a[1:])
+        if not isinstance(addr, tuple):
+            return Unknown("int")
+        if self.alg.startswith("BLAKE2"):
+            key, klen, dsz = (extra + [None] * 3)[:3]
+            if not isinstance(key, (bytes, bytearray)) or klen != len(key) or not isinstance(dsz, int):
+                return Unknown("int")
+            mx = 64 if self.alg == "BLAKE2b" else 32
+            if not (1 <= dsz <= mx) or klen > mx:
+                return 3
+            extra = [bytes(key), dsz]
+        elif self.alg == "SHA512" and (len(extra) != 1 or extra[0] not in (28, 32, 64)):
+            return 3 if extra and isinstance(extra[0], int) else Unknown("int")
+        o = i.new_obj(st, label="mdstate")
+        st.heap[o.ident].update({"kind": "md", "buf": b"", "args": extra})
+        st.heap[addr[1]]["val"] = ("kk", o.ident)
+        return 0
+
+    def g_update(self, i, a, kw, st, node):
+        c = self._cell(st, a[0])
+        d, n = a[1], a[2]
+        if c is None or not isinstance(d, (bytes, bytearray)) or not isinstance(n, int) or n > len(d):
+            return Unknown("int")
+        c["buf"] = c["buf"] + bytes(d[:n])
+        return 0
+
+    def g_digest(self, i, a, kw, st, node):
+        c = self._cell(st, a[0])
+        out = a[1]
+        if c is None or not isinstance(out, bytearray):
+            return Unknown("int")
+        dg = self.fn(c["buf"], c["args"])
+        if len(a) > 2:
+            if not isinstance(a[2], int) or a[2] != len(dg) and self.alg not in ("SHA224", "SHA384", "SHA512"):
+                return 3
+            dg = dg[:a[2]]
+        if len(out) < len(dg):
+            return 3
+        out[:len(dg)] = dg
+        return 0
+
+    def g_copy(self, i, a, kw, st, node):
+        s_, d_ = self._cell(st, a[0]), self._cell(st, a[1])
+        if s_ is None or d_ is None:
+            return Unknown("int")
+        d_["buf"], d_["args"] = s_["buf"], list(s_["args"])
+        return 0
+
+
+def _md_job(arg):
+    repo, alg, params, msg, how = arg
+    w = MdWorld(repo, alg)
+    kw = dict(params)
+    first, rest = (msg[:5], msg[5:]) if how == 3 else (None, msg)
+    if first is not None:
+        kw["data"] = first
+    o = w.new(H + alg, **kw)
+    if not isinstance(o, AObj):
+        return "new(): %r" % (o,)
+    for p in _cuts(rest, how if how != 3 else 1):
+        r = w.call(o, "update", p)
+        if isinstance(r, tuple):
+            return "update(): %r" % (r,)
+    if alg == "SHA512":
+        want = {None: hashlib.sha512, "224": lambda x: hashlib.new("sha512_224", x), "256": lambda x: hashlib.new("sha512_256", x)}[params.get("truncate")](msg).digest()
+    elif alg.startswith("BLAKE2"):
+        dsz = params.get("digest_bytes") or (params["digest_bits"] // 8 if params.get("digest_bits") else (64 if alg == "BLAKE2b" else 32))
+        want = getattr(hashlib, alg.lower())(msg, key=params.get("key", b""), digest_size=dsz).digest()
+    else:
+        want = MD_FAMILY[alg][1](msg, [])
+    got = w.call(o, "digest")
+    if got != want:
+        return "digest() = %s, hashlib gives %s" % (got.hex()[:20] + ".." if isinstance(got, bytes) else got, want.hex()[:20] + "..")
+    if w.call(o, "digest") != want:
+        return "a second digest() differs"
+    if w.call(o, "hexdigest") != want.hex():
+        return "hexdigest() is not the hexadecimal form of digest()"
+    if w.repo.find_method(o.mod, o.cnode, "copy") is not None and not alg.startswith("BLAKE2"):
+        cp = w.call(o, "copy")
+        if not isinstance(cp, AObj):
+            return "copy(): %r" % (cp,)
+        w.call(cp, "update", b"tail")
+        if w.call(cp, "digest") != MD_FAMILY[alg][1](msg + b"tail", [len(want)] if alg == "SHA512" else []):
+            return "the copy, continued with 4 more bytes, gives another digest than hashlib"
+        if w.call(o, "digest") != want:
+            return "the original changed when its copy was updated"
+    # a fresh object of the same kind
+    nw = w.call(o, "new", b"xyz") if not alg.startswith("BLAKE2") else None
+    if nw is not None:
+        if not isinstance(nw, AObj):
+            return "obj.new(): %r" % (nw,)
+        ref_new = MD_FAMILY[alg][1](b"xyz", [len(want)] if alg == "SHA512" else [])
+        if w.call(nw, "digest") != ref_new:
+            return "obj.new(b'xyz').digest() is not the digest of b'xyz' under the same algorithm variant"
+    return None
+
+
+def md_stack_tables(check, ctx, rule="K-pw"):
+    from ..par import pmap
+    repo = ctx.repo
+    th = ctx.tier == "thorough"
+    ALGS = [("MD5", {}), ("SHA1", {}), ("SHA224", {}), ("SHA256", {}), ("SHA384", {}), ("SHA512", {"truncate": None}), ("SHA512", {"truncate": "224"}),
+            ("SHA512", {"truncate": "256"}), ("RIPEMD160", {}),
+            ("BLAKE2b", {}), ("BLAKE2b", {"digest_bytes": 20, "key": _pat(64, 1)}), ("BLAKE2b", {"digest_bits": 384}),
+            ("BLAKE2s", {}), ("BLAKE2s", {"digest_bits": 128, "key": _pat(7, 2)}), ("BLAKE2s", {"digest_bytes": 1})]
+    jobs = []
+    for alg, params in ALGS:
+        for ml in (0, 3, 55, 56, 64, 111, 112, 128, 200) if th else (0, 56, 119, 200):
+            for how in (0, 1, 3) if th else ((ml // 7) % 2 * 3,):
+                jobs.append((repo, alg, params, _pat(ml, len(alg) + len(params)), how))
+    errs = pmap(_md_job, jobs)
+    per = {}
+    for j, e in zip(jobs, errs):
+        d = per.setdefault(j[1], [0, []])
+        d[0] += 1
+        if e:
+            d[1].append("%d-byte message, feeding %d, %s: %s" % (len(j[3]), j[4], dict((k, (v if not isinstance(v, bytes) else "%d bytes" % len(v))) for k, v in j[2].items()), e))
+    und = [a for a, d in per.items() if d[1] and len(d[1]) == d[0] and all("undecided" in x for x in d[1])]
+    if und:
+        raise AnalysisError("the %s stack could not be interpreted over the hash model: %s" % (und[0], per[und[0]][1][0]))
+    total = 0
+    for alg, (n, wrong) in sorted(per.items()):
+        total += n
+        check.ob(rule, "%s|hash.stack.%s" % (rule, alg), not wrong, repo.module(H + alg).path, 0,
+                 extracted=("%d of %d rows differ: " % (len(wrong), n) + "; ".join(wrong[:2])) if wrong else "%d rows: digest / hexdigest / a second digest / copy() continued / obj.new() equal hashlib for the data supplied (variants: truncation, digest size, key)" % n,
+                 expected="the object's value is the standard's hash of the data supplied, whatever the split; digest() does not consume; copies and fresh objects keep the variant")
+    check.count("hash_stack_rows", total)
+    return total
